@@ -97,6 +97,7 @@ func Explore(p *Program, name string, fn *ssa.Function, cfg Config) *Summary {
 			return
 		}
 		defer s.Close()
+		wc := NewWorkerCache()
 		for {
 			mu.Lock()
 			for len(stack) == 0 && active > 0 && !stop {
@@ -113,7 +114,7 @@ func Explore(p *Program, name string, fn *ssa.Function, cfg Config) *Summary {
 			wantWitness := sum.Paths < cfg.Witnesses || len(sum.Witnesses) < cfg.Witnesses
 			mu.Unlock()
 
-			res := runPath(p, s, fn, w.prefix, cfg, wantWitness)
+			res := runPath(p, s, fn, w.prefix, cfg, wantWitness, wc)
 
 			mu.Lock()
 			active--
@@ -202,11 +203,11 @@ type pathOut struct {
 	vwitness []Witness
 }
 
-func runPath(p *Program, s *smt.Solver, fn *ssa.Function, prefix []uint64, cfg Config, wantWitness bool) (out *pathOut) {
+func runPath(p *Program, s *smt.Solver, fn *ssa.Function, prefix []uint64, cfg Config, wantWitness bool, wc *WorkerCache) (out *pathOut) {
 	s.Reset()
-	m := NewMachine(p, s, cfg.Lim, prefix)
+	m := NewMachine(p, s, cfg.Lim, prefix, wc)
 	if cfg.WantFuncs {
-		m.funcs = map[string]int{}
+		m.fcount = map[*fnInfo]int{}
 	}
 	out = &pathOut{}
 	finish := func(status, reason string) {
@@ -217,7 +218,12 @@ func runPath(p *Program, s *smt.Solver, fn *ssa.Function, prefix []uint64, cfg C
 		out.NewPrefixes = m.newPfx
 		out.Steps = m.steps
 		out.Unknowns = m.unknown
-		out.Funcs = m.funcs
+		if m.fcount != nil {
+			out.Funcs = make(map[string]int, len(m.fcount))
+			for fi, n := range m.fcount {
+				out.Funcs[fi.name] = n
+			}
+		}
 		if len(m.res.Violations) > 0 && status != "inconclusive" {
 			out.Status = "violation"
 			for _, v := range m.res.Violations {
